@@ -172,3 +172,47 @@ Example C20_examples :
       ((1, KCalculate), [Enter 0; Enter 1; Enter 3; Enter 2; Call; Exit 2; Exit 3; Exit 1; Exit 0]);
       ((1, KValidateOutput), [Enter 3; Call; Exit 3]) ].
 Proof. vm_compute. repeat split; try reflexivity. repeat constructor; cbn; intuition discriminate. Qed.
+
+(* 6. execution modes (Model/Modes.v; `held m order copy s` = the extender set the compute-framework object of step s
+      holds: the caller's set in SYNC, an unpickled copy with its own iteration order in THREADING and MULTIPROCESSING,
+      where the wrapped calls of MULTIPROCESSING run in worker processes).  Nothing in the property depends on the mode:
+      whatever the copies' iteration orders, the chain of every wrapped call consists of exactly the registered
+      extenders declaring the hook, in ascending priority, and sees the call exactly once with the bare outcome ... *)
+Require Import MV.Model.Modes.
+
+Theorem C20_any_mode_sees_once : forall (A : Type) m order copy s h (w : result A),
+  Permutation order (copy s) ->
+  2 <= List.length (matching h order) -> NoDup (map eid (matching h order)) ->
+  let o := held m order copy s in
+  snd (run_wrapped h o (wrapped w)) = w /\
+  sees_once (chain_order h o) (is_ok w) (fst (run_wrapped h o (wrapped w))) /\
+  by_priority (chain_order h o) /\ Permutation (chain_order h o) (matching h order).
+Proof. exact (@any_mode_sees_once_l). Qed.
+Print Assumptions C20_any_mode_sees_once.
+
+(* ... with pairwise distinct priorities per hook the complete run (every trace, the failing flag) IS the SYNC run ... *)
+Theorem C20_mode_independent : forall m order copy fails cs,
+  (forall s, Permutation order (copy s)) -> (forall h, NoDup (map prio (matching h order))) ->
+  run_calls_in m order copy fails cs = run_calls order fails cs.
+Proof. exact run_calls_mode_independent_l. Qed.
+Print Assumptions C20_mode_independent.
+
+Theorem C20_sync_is_base : forall order copy fails cs, run_calls_in MSync order copy fails cs = run_calls order fails cs.
+Proof. exact run_calls_in_sync_l. Qed.
+Print Assumptions C20_sync_is_base.
+
+(* ... and with ties it is the ideal run over the iteration orders actually held (ties keep the order of the copy) *)
+Theorem C20_plan_ideal_any_mode : forall m order copy fails cs,
+  run_calls_in m order copy fails cs = ideal_run_calls_at (held m order copy) fails cs.
+Proof. exact run_calls_in_ideal_l. Qed.
+Print Assumptions C20_plan_ideal_any_mode.
+
+(* non-vacuity: the example set in MULTIPROCESSING with a copy iterated in reverse -- same run as SYNC except that the
+   tie (extenders 3 and 2, priority 7) nests the other way round *)
+Example C20_mode_example :
+  let pass := map (fun e => {| eid := eid e; prio := prio e; hooks := hooks e; beh := Pass |}) ex_set in
+  fst (run_calls_in MMultiprocessing pass (fun _ => rev pass) (fun _ => false) [(0, KCalculate)]) =
+    [((0, KCalculate), [Enter 0; Enter 1; Enter 2; Enter 3; Call; Exit 3; Exit 2; Exit 1; Exit 0])] /\
+  fst (run_calls_in MSync pass (fun _ => rev pass) (fun _ => false) [(0, KCalculate)]) =
+    [((0, KCalculate), [Enter 0; Enter 1; Enter 3; Enter 2; Call; Exit 2; Exit 3; Exit 1; Exit 0])].
+Proof. vm_compute. split; reflexivity. Qed.
